@@ -48,8 +48,13 @@ PROPS = {
               props=["LachesisVerif.Props.C04"], level="proof"),
     "C05": _p("ForklessCause answers compared with the graph definition for random pairs, under every indexing order and cache size."),
     "C06": _p("Merged highest-before vectors (both accessors) compared with fork/max-seq of the graph definition."),
-    "C07": _p("Speculative builds and rejected wrong-frame events are injected on the builder instance only; the other instances never see them; "
-              "all instances must keep agreeing with the reference (which ignores them by construction)."),
+    "C07": _p("Proof (partial): the forkless-cause result cache (the only volatile state that survives DropNotFlushed) is transparent for every "
+              "history of adds, commits, roll-backs, queries and evictions, provided an id never denotes two different events (negative witness for "
+              "the pre-fix temporary ids); the Orderer model writes nothing before the frame check. Not proved: determinism of the uncached answer "
+              "for the vector model (= C05 stability), restoration of vector/branch tables by DropNotFlushed. Correspondence: speculative builds and "
+              "rejected wrong-frame events are injected on the builder instance only; the other instances never see them; "
+              "all instances must keep agreeing with the reference (which ignores them by construction).",
+              props=["LachesisVerif.Props.C07"], level="proof"),
     "C08": _p("Instances are restarted (fresh Store caches, fresh vecfc.Index over the kept DBs) at random event boundaries; later outputs must "
               "equal the reference, which has no notion of restart."),
     "C09": _p("Proof (reference level): a Process call that emits a sealed block ends with it and leaves exactly the fresh state of the next "
